@@ -5,6 +5,7 @@ import (
 	"go/ast"
 	"go/token"
 	"go/types"
+	"strings"
 )
 
 func init() {
@@ -41,6 +42,7 @@ func runC06(c *Ctx) {
 	}
 	// 2. cache only after store success
 	checkTypedValueCache(r, p)
+	checkComputeReadsStore(r, p)
 	// 3. locks
 	checkGuards(r, p, "lock/guarded-by", []GuardRow{{
 		Pkg: pkg, Type: "TypedValue", Mutex: "mutex", Fields: []string{"valueCached", "hasCached"},
@@ -602,5 +604,71 @@ func checkIterateStopAndReport(r *Reporter, p *Prog, pkg string, fd *ast.FuncDec
 		r.Pass("iterate/stop-and-report", key, p.posStr(litPos), fmt.Sprintf("%d decode call(s): error recorded, iteration stopped, error returned", nDecode))
 	} else {
 		r.Fail("iterate/stop-and-report", key, p.posStr(litPos), bad)
+	}
+}
+
+// checkComputeReadsStore: a finite case split over the cache states of TypedValue. The cache is
+// three-valued - nothing known (hasCached == nil), presence known but no value (hasCached true,
+// valueCached == nil: what Has() leaves behind), value known / absence known. Compute may hand
+// the cached state to the compute function only when the value or the absence is known: in the
+// other two states every path to the call of the compute function (branches decided by the state
+// taking only their decided side, helper results followed) must pass the store read. Otherwise the
+// function is run on (zero, false) for an existing key and its result overwrites the stored value.
+func checkComputeReadsStore(r *Reporter, p *Prog) {
+	const pkg, rule = "kvstore", "cache/compute-reads-store"
+	fd := p.FuncDecl(pkg, "TypedValue", "Compute")
+	key := pkg + ".TypedValue.Compute"
+	if fd == nil {
+		r.Unresolved(rule, key, "method not found")
+		return
+	}
+	info := p.Pkg(pkg).TypesInfo
+	recv := recvObj(info, fd)
+	if recv == nil {
+		r.Unresolved(rule, key, "receiver not named")
+		return
+	}
+	rn := recv.Name()
+	f := newFuncCFG(p, info, fd.Body, key)
+	params := map[types.Object]bool{}
+	for _, fl := range fd.Type.Params.List {
+		for _, nm := range fl.Names {
+			if _, isFn := info.TypeOf(fl.Type).Underlying().(*types.Signature); isFn {
+				params[info.Defs[nm]] = true
+			}
+		}
+	}
+	isCompute := func(n ast.Node) bool {
+		cl, ok := n.(*ast.CallExpr)
+		return ok && params[objOfIdent(info, cl.Fun)]
+	}
+	isGet := func(n ast.Node) bool {
+		cl, ok := n.(*ast.CallExpr)
+		return ok && strings.HasSuffix(exprKey(cl.Fun), ".kv.Get")
+	}
+	if len(f.Find(isCompute)) == 0 || len(f.Find(isGet)) == 0 {
+		r.Fail(rule, key, p.posStr(fd.Pos()), "expected a call of the compute function parameter and a store read (kv.Get)")
+		return
+	}
+	states := []struct {
+		name   string
+		assign map[string]bool
+	}{
+		{"nothing cached", map[string]bool{"nil == " + rn + ".hasCached": true, "nil == " + rn + ".valueCached": true}},
+		{"presence cached, value not (after Has on an existing key)", map[string]bool{"nil == " + rn + ".hasCached": false, "*" + rn + ".hasCached": true, "nil == " + rn + ".valueCached": true}},
+	}
+	ok := true
+	for _, st := range states {
+		if w, found := f.PathUnder(st.assign, isGet, isCompute); found {
+			ok = false
+			r.Fail(rule, key+" ["+st.name+"]", p.posStr(fd.Pos()), "in the cache state '"+st.name+"' the compute function can be reached without reading the store: it is run on (zero value, false) although the key may exist, and its result overwrites the stored value", w...)
+		}
+	}
+	if ok {
+		r.Pass(rule, key, p.posStr(fd.Pos()), "in both cache states without a known value the store is read before the compute function runs")
+	}
+	// the positive side of the case split must be decidable too: with the value cached the call is reachable
+	if _, found := f.PathUnder(map[string]bool{"nil == " + rn + ".hasCached": false, "*" + rn + ".hasCached": false, "nil == " + rn + ".valueCached": true}, nil, isCompute); !found {
+		r.Fail(rule, key+" [self-check]", p.posStr(fd.Pos()), "the compute function is not reachable at all under a decided cache state: the case split does not apply to this code shape")
 	}
 }
